@@ -203,6 +203,11 @@ pub fn check_event(ev: &Event, st: &mut Stats, out: &mut Vec<Viol>) {
     for m in &post.g1 { v(out, "C07", "g1", format!("after {}: {}", op.to_text(), m)); }
     for m in &post.g2 { v(out, "C07", "g2", format!("after {}: {}", op.to_text(), m)); v(out, "C12", "g2", format!("after {}: {}", op.to_text(), m)); v(out, "C05", "g2", format!("after {}: {}", op.to_text(), m)); }
     for m in &post.g3 { v(out, "C07", "g3", format!("after {}: {}", op.to_text(), m)); v(out, "C04", "g3", format!("after {}: {}", op.to_text(), m)); }
+    // a capacity operation that leaves the list/table structure incoherent has not been transparent (and a failed
+    // try_reserve has not left the cache exactly as it was)
+    if !post.g1.is_empty() && pre.g1.is_empty() && matches!(op, Op::Reserve { .. } | Op::TryReserve { .. } | Op::TryReserveFail { .. } | Op::ShrinkTo { .. } | Op::ShrinkFit) {
+        v(out, "C13", if o.tag.starts_with("err_") { "failed-reserve-changed" } else { "not-transparent" }, format!("{} (outcome {}) left the cache incoherent: {}", op.to_text(), o.tag, post.g1[0]));
+    }
     for m in &post.g1 { if m.contains("key id occurs twice") { v(out, "C04", "dup-key", format!("after {}: {}", op.to_text(), m)); } }
     if !post.g1.is_empty() { return; }
     // a forgotten iterator: C17 territory (handled by the engine); only the yields are judged here
